@@ -115,7 +115,7 @@ def run_case(case):
     import pandas
     from bioscrape.simulator import ModelCSimInterface, SafeModelCSimInterface, DeterministicSimulator, py_simulate_model
     C = Counter()
-    viol = []
+    viol = util.ViolList()
     sp = case["spec"]
     tp = np.array(case["tp"], dtype=float)
     M = specmod.build_model(sp, "ctor")
